@@ -199,6 +199,10 @@ def conformance(prog: Program, rep, RID: str, pid: str, floor_note: str = ""):
                 loc = f"{near[0]['_file']}:{near[0]['_line']}"
             else:
                 msg += " || no candidate left in the method (row removed?)"
+            rs = _reshaped(r, near[0]) if near else None
+            if rs:
+                raise AnalysisError(f"{key}: the row is present with the same relation and coefficients, but {rs}; the normaliser cannot relate the two "
+                                    "forms - review the change and extend sa/mir.py or re-freeze after confirming")
             if any(c["_opaque"] for c in near):
                 raise AnalysisError(f"{key}: the candidate row in the code could not be brought to normal form ({near[0]['_opaque'][:2]}); "
                                     "review the change and extend the normaliser or re-freeze")
@@ -208,6 +212,44 @@ def conformance(prog: Program, rep, RID: str, pid: str, floor_note: str = ""):
                 rep.note(f"{mkey}: effect not in the formulation table (not judged): line {c['_line']} {describe_row(public(c))[:200]}")
     if n == 0:
         raise AnalysisError(f"no tabled effect serves {pid}")
+
+
+def _heads(texts) -> List[str]:
+    """constructor heads of iteration domains: `(q0_0) in range(...)` -> 'range', `... in self.G.edges` -> 'self.G.edges'"""
+    import re as _re
+    out = []
+    for t in texts:
+        dom = t.split(" in ", 1)[1] if " in " in t else t
+        m = _re.match(r"^([\w.]+)\(", dom)
+        out.append(m.group(1) if m else _re.sub(r"\[.*$", "", dom))
+    return sorted(out)
+
+
+def _reshaped(tabled: Dict[str, object], cur: Dict[str, object]) -> Optional[str]:
+    """The payload core (relation, coefficients, bounds) is the same and only the *description of where it is emitted* differs
+    in a way that is not a like-for-like change: a differently constructed iteration domain (range(min(len(W), k)) vs
+    zip(range(k), W)) or a differently built local collection.  A like-for-like change (range(a) vs range(b), the same number
+    of parts over the same kinds of domains) is a provable difference and stays a violation."""
+    import re as _re
+    core = lambda r_: {k: v for k, v in r_.items() if k not in ("quant", "defs", "guard", "guards", "id", "serves") and not k.startswith("_")}
+    ct, cc = core(tabled), core(cur)
+    # loop-variable numbering follows the sorted domain texts: compare cores modulo the q-names
+    norm_q = lambda d: _re.sub(r"q\d+_\d+", "q", json.dumps(d, sort_keys=True))
+    if norm_q(ct) != norm_q(cc):
+        return None
+    qt, qc = list(tabled.get("quant") or []), list(cur.get("quant") or [])
+    if _heads(qt) != _heads(qc):
+        return f"its quantifier domains are built differently ({qt} vs {qc})"
+    dt, dc = tabled.get("defs") or {}, cur.get("defs") or {}
+    if set(dt) != set(dc):
+        return f"the local collections it depends on differ ({sorted(dt)} vs {sorted(dc)})"
+    for nm in dt:
+        a, b = dt[nm], dc[nm]
+        ha = sorted(_re.findall(r" in ([\w.]+)[\(\[ }]", " ".join(a) + " "))
+        hb = sorted(_re.findall(r" in ([\w.]+)[\(\[ }]", " ".join(b) + " "))
+        if len(a) != len(b) or ha != hb or any(p.startswith("union ") or p.startswith("stmt ") for p in b if p not in a):
+            return f"the local collection `{nm}` is built in a different form"
+    return None
 
 
 def describe_row(r: Dict[str, object]) -> str:
